@@ -41,6 +41,9 @@ SCENARIOS = {
                  asis={"SpawnReturnsLive", "CounterSettles", "ResolvesLiveOnly", "LiveAreRegistered"}),
     "child2": S("ac", {"a": "u", "c": "a"}, ["a"], {"t1": [("spawnchild", "c")], "t2": [("spawnchild", "c")], "t3": [("stop", "a")]},
                 maxinc=2, asis={"ChildrenFirst", "StopIsComplete", "LiveAreRegistered", "SpawnReturnsLive", "CounterSettles", "AtMostOneRunning"}),
+    # the leader of the single flight is cancelled mid-spawn (PreStart fails with its context error): the healthy waiters
+    # retry through the single flight
+    "cancelsp": S("a", {"a": "u"}, [], {"t1": [("spawnx", "a")], "t2": [("spawn", "a")], "t3": [("spawnfn", "a")]}, maxinc=2),
     "childco": S("ac", {"a": "u", "c": "a"}, ["a"], {"t1": [("spawnchild", "c")], "t2": [("spawnchild", "c"), ("actorof", "c")]}, maxinc=2),
     "child1": S("ac", {"a": "u", "c": "a"}, ["a"], {"t1": [("spawnchild", "c")], "t3": [("stop", "a")]},
                 maxinc=1, asis={"ChildrenFirst", "StopIsComplete", "LiveAreRegistered"}),
@@ -74,7 +77,7 @@ SCENARIOS = {
     "sysstop": S("abc", {"a": "u", "b": "a", "c": "u"}, "abc", {"t1": [("sysstop", "")], "t2": [("tell", "b"), ("tellg", "g1"), ("tell", "c")]}, grains=2),
 }
 BY_PROP = {
-    "C11": ["spawn3", "respawn", "childco", "spawn2n", "respawn2"],
+    "C11": ["spawn3", "respawn", "childco", "cancelsp", "spawn2n", "respawn2"],
     "C10": ["watch", "watchpill", "wrestart", "watch2"],
     "C09": ["overlap", "restart1", "respawn", "child1", "orphan", "deep"],
     "C17": ["sysstop", "sysstop2"],
@@ -241,7 +244,7 @@ def witnesses(h):
             opn[e["t"]] = e
         elif ev == "ret":
             opn.pop(e["t"], None)
-            if e["op"] in ("spawn", "spawnfn", "spawnchild") and e["ok"] == 1 and e["i"] and (e["n"], e["i"]) not in everreg:
+            if e["op"] in ("spawn", "spawnfn", "spawnchild", "spawnx") and e["ok"] == 1 and e["i"] and (e["n"], e["i"]) not in everreg:
                 p = par.get(e["n"], "u")
                 if p != "u" and reg(p) is None:
                     wit.add("OrphanChildOutsideTree")  # returned as spawned, never inserted, and its parent is not in the tree
